@@ -179,7 +179,7 @@ void obs_arr(std::vector<std::string>& out, const std::string& key, A a)
 }
 
 template<typename D>
-void obs_data(std::vector<std::string>& out, const std::string& key, D d)
+void obs_data(std::vector<std::string>& out, const std::string& key, D d, bool with_size)
 {
     std::string s;
     const std::size_t n = static_cast<std::size_t>(d.size());
@@ -188,7 +188,9 @@ void obs_data(std::vector<std::string>& out, const std::string& key, D d)
         const unsigned char b = static_cast<unsigned char>(d.data()[i]);
         s += proto::hex(&b, 1);
     }
-    out.push_back(key + "=<" + s + ">");
+    out.push_back(
+        key + "=<" + s + ">"
+        + (with_size ? ",sz=" + std::to_string(sbepp::size_bytes(d)) : std::string{}));
 }
 
 template<typename A>
@@ -213,7 +215,7 @@ void set_data(D d, const std::vector<unsigned char>& bytes)
 
 struct entry
 {
-    std::function<void(span, std::vector<std::string>&)> dec_ra;
+    std::function<void(span, std::vector<std::string>&, const std::vector<std::uint64_t>&)> dec_ra;
     std::function<void(span, std::vector<std::string>&)> dec_cur;
     std::function<std::size_t(span, tokens&)> enc_ra;
     std::function<std::size_t(span, tokens&)> enc_cur;
@@ -252,11 +254,17 @@ inline int main_loop(const std::map<std::string, entry>& table)
         {
             std::string hex;
             is >> hex;
+            std::vector<std::uint64_t> args;
+            std::uint64_t a;
+            while(is >> a)
+            {
+                args.push_back(a);
+            }
             const auto img = proto::unhex(hex);
             guard_buf gb{img.size()};
             std::memcpy(gb.p, img.data(), img.size());
             std::vector<std::string> ra, cur;
-            const auto s1 = proto::guarded([&] { it->second.dec_ra(span{gb.p, gb.n}, ra); });
+            const auto s1 = proto::guarded([&] { it->second.dec_ra(span{gb.p, gb.n}, ra, args); });
             const auto s2 = proto::guarded([&] { it->second.dec_cur(span{gb.p, gb.n}, cur); });
             const bool same = std::memcmp(gb.p, img.data(), img.size()) == 0;
             std::cout << "ra=" << join(ra) << " rast=" << (s1.empty() ? "ok" : s1) << " cur=" << join(cur)
